@@ -689,6 +689,62 @@ def run_glue(R: Run):
                 for nd_ in (None, 255, -9999.0):
                     xx_, _ = mk_xx((h_, w_), (h_, w_), "float64", None, gk=h_ + w_)
                     entry_case("to_cog", xx_, "mem", {"nodata": nd_, "compress": None, "overview_levels": []}, None, "glue|geotiff_metadata-call")
+        # GCP geoboxes as writer input (model writeCogGcp): `_write_cog` directly and `to_cog` / `write_cog` on an array registered
+        # by ground control points — refused with AttributeError after the guard / resampling check / warning, GDAL never called
+        try:
+            from odc.geo.gcp import GCPGeoBox, GCPMapping
+        except ImportError:
+            GCPGeoBox = None
+        if GCPGeoBox is not None:
+            def mk_gcp(h_, w_):
+                lin_ = mk_gbox(h_, w_)
+                pp_ = np.array([(0, 0), (w_, 0), (0, h_), (w_, h_), (w_ / 2, h_ / 2)], dtype=float)
+                return GCPGeoBox((h_, w_), GCPMapping(pp_, np.array([lin_.transform * (x_, y_) for x_, y_ in pp_]), "epsg:3857"))
+
+            n = 0
+            for dst_kind in ("mem", "new", "exists_overwrite", "exists_keep"):
+                for bs_, rs_, shape_ in ((16, None, (6, 8)), (17, "average", (2, 6, 8)), (None, "bogus", (6, 8, 3)), (20, None, (8, 6))):
+                    n += 1
+                    gg_ = mk_gcp(6, 8)
+                    pix_ = mk_pixels(rng, shape_, "uint8")
+                    dst, exists, overwrite = new_dst(dst_kind)
+                    kw_ = {}
+                    if bs_ is not None:
+                        kw_["blocksize"] = bs_
+                    if rs_ is not None:
+                        kw_["overview_resampling"] = rs_
+                    line = (f"c15 wcoggcp {list_s(shape_)} 6;8 uint8 F {dst_tok(dst, exists)} N {bool_s(overwrite)} {opt_s(bs_)} "
+                            f"{'N' if rs_ is None else 's:' + rs_} N N F F {{}}")
+                    if write_cog_impl is not None:
+                        R.corr(line, lambda: traced(lambda: write_cog_impl(pix_, gg_, dst, overwrite=overwrite, **kw_), dst if dst != ":mem:" else None, exists)[0],
+                               sig=f"glue|gcp-geobox|_write_cog|{dst_kind}")
+                        if dst != ":mem:" and exists and not os.path.exists(dst):
+                            open(dst, "wb").write(b"pre-existing")
+                    if shape_ == (6, 8):
+                        xx_ = wrap_xr(pix_, gg_)
+                        if type(xx_.odc.geobox).__name__ == "GCPGeoBox":
+                            call_ = (lambda: RIO.to_cog(xx_, **kw_)) if dst == ":mem:" else (lambda: RIO.write_cog(xx_, dst, overwrite=overwrite, **kw_))
+                            R.corr(line, lambda: traced(call_, dst if dst != ":mem:" else None, exists)[0], sig=f"glue|gcp-geobox|public|{dst_kind}")
+                    if dst != ":mem:" and os.path.exists(dst):
+                        os.unlink(dst)
+        # intermediate_compression dicts that carry NAMED parameters of _write_cog on the supplied-overviews path (model
+        # writeCogLayersFull: overwrite / ovr_blocksize / overview_resampling bind to parameters of the first pass; blocksize /
+        # nodata / use_windowed_writes as before); a duplicate keyword (overview_levels) is a TypeError — pinned
+        geo2_, _ = mk_xx((33, 20), (33, 20), "int16", 5)
+        ovs2_ = halves(geo2_, 1)
+        for ic_ in ({"compress": "lzw", "overwrite": True}, {"ovr_blocksize": 64, "compress": "zstd"}, {"overview_resampling": "average"},
+                    {"overview_resampling": "bogus"}, {"overwrite": True, "ovr_blocksize": 32, "overview_resampling": "mode", "blocksize": 48, "zlevel": 1}):
+            for dst_kind in ("mem", "exists_overwrite"):
+                dst, exists, overwrite = new_dst(dst_kind)
+                layers_ = [geo2_] + ovs2_
+                line = (f"c15 wlayersfull {'+'.join(layer_tok(l) for l in layers_)} {dst_tok(dst, exists)} {bool_s(overwrite)} N N {icomp_tok(ic_)} F {{}} {FIXED_UUID}")
+                R.corr(line, lambda: traced(lambda: RIO.write_cog_layers(layers_, dst, overwrite=overwrite, intermediate_compression=dict(ic_)),
+                                            dst if dst != ":mem:" else None, exists)[0], sig="glue|write_cog_layers|ic-named-parameters")
+                if dst != ":mem:" and os.path.exists(dst):
+                    os.unlink(dst)
+        dup_ = traced(lambda: RIO.write_cog_layers([geo2_] + ovs2_, ":mem:", intermediate_compression={"overview_levels": [2]}))[0]
+        R.oracle(dup_.endswith("|ERR:TypeError"), "ic-duplicate-keyword-not-refused", {"fn": "write_cog_layers", "intermediate_compression": {"overview_levels": [2]}},
+                 f"a first-pass keyword that duplicates an explicit argument used to be a TypeError; now: {dup_[-80:]}", sig="pin|ic-duplicate-keyword")
         # arrays without geo-registration, empty layer lists, layers of mixed registration
         plain, _ = mk_xx((8, 9), None, "uint8", 1, geo=False)
         geo, _ = mk_xx((8, 9), (8, 9), "uint8", 1)
